@@ -263,6 +263,7 @@ func init() {
 		ID:    "C23",
 		Level: "exploration",
 		Rule: "seeded operation sequences (queue/store/retrieve/remove/get/restart/cache-lost restart, per-run swarm weights) over 2-7 payloads x 1-3 signed variants from 4 interleaved clients; " +
+			"Concurrent part (35% of the runs): 5-12 (thorough 8-37) rounds of 2-4 overlapping queue/store/retrieve/remove/get calls interleaved at Badger transaction boundaries by a seeded scheduler; each round must be linearizable against the credit model; " +
 			"a run is non-trivial if at least one retrieval returned a transaction; distinct = distinct canonical-log digests among non-trivial runs",
 		Components: map[string]string{"storage.BadgerStore cache API (real Badger on tmpfs)": "real", "kernel/p2p": "not involved", "power loss of the un-synced cache DB": "modelled by deleting the cache directory between close and reopen"},
 		Assume:     []string{"A1 Badger commit atomic", "A3 overlap finer than one Store call is equivalent to a serial order or ErrConflict", "cache TTL (real time, 2h) never fires within a run"},
